@@ -9,10 +9,11 @@
    One action per public call, as the queue consumer makes them:
      StartDuty(s)     runner.StartNewDuty(attester duty, slot s)
      CtlStart(s)      controller.StartNewInstance(s, value) called directly (any other caller)
-     LocalMsgs(h)     the 7 deciding messages of round 1 for height h (proposal, 3 prepares, 3 commits of
-                      operators 1,2,3), each through runner.ProcessConsensus
+     LocalMsgs(h,F)   the 7 deciding messages of round 1 for height h (proposal, 3 prepares, 3 commits of
+                      operators 1,2,3), each through runner.ProcessConsensus; F = failing write attempts
      Commit4(h)       the late round-1 commit of operator 4
-     Decided(h,r,n)   a decided certificate (aggregated commit, n signers 1..n, round r) for height h
+     Decided(h,r,n,F) a decided certificate (aggregated commit, n signers 1..n, round r) for height h;
+                      F = failing write attempts (see below)
      OnTimeout(h,r)   a timeout event reaching controller.OnTimeout
      Restart          process crash between two calls + Validator.Start on the same database
      DecidedCrash(h,r,n,k) / LocalMsgsCrash(h,k)
@@ -39,7 +40,16 @@
      saveAlwaysHighest    SaveInstance treats every instance as the highest
      loadNoHeight         LoadHighestInstance does not set c.Height
      noBump               UponDecided does not bump c.Height on a future decided
-     histFirst            ibftStorage.saveInstance writes the historical record before the highest record     *)
+     histFirst            ibftStorage.saveInstance writes the historical record before the highest record
+     saveErrReturns       UponDecided RETURNS the error of SaveInstance, before the height bump (and the runner,
+                          seeing an error from ProcessMsg, does not save again)
+     saveErrNoBump        UponDecided bumps c.Height only when SaveInstance succeeded (error still swallowed)
+     compactToMsgRound    compactInstanceIfNeeded trims the commit container to the round of the message it is handed
+                          (max(State.Round, msg round)) instead of State.Round
+     saveErrUndecides     UponDecided, when SaveInstance failed, marks the instance undecided again ("the next copy
+                          of the certificate retries the save"): a smaller certificate then replaces the stored one
+     saveContinuesAfterError  ibftStorage.saveInstance attempts the historical write although the highest
+                          write failed                                                                       *)
 EXTENDS Integers, Sequences, FiniteSets, TLC
 
 CONSTANTS MaxH,         \* heights / slots 0..MaxH
@@ -52,25 +62,28 @@ CONSTANTS MaxH,         \* heights / slots 0..MaxH
           CertRounds,   \* rounds of the decided certificates delivered ({1, 2}; {1} in lean attack configs)
           Direct,       \* BOOLEAN: include CtlStart
           Timeouts,     \* BOOLEAN: include OnTimeout
-          MidCrash      \* BOOLEAN: include the crash points inside a call (between the database writes)
+          MidCrash,     \* BOOLEAN: include the crash points inside a call (between the database writes)
+          MaxWriteFaults \* number of database writes that may fail (error returned, nothing written)
 
 VARIABLES height,       \* Controller.Height
           stored,       \* Controller.StoredInstances
           rs,           \* runner: [has |-> State # nil, run |-> height of State.RunningInstance or -1]
           db,           \* [hi |-> record, hist |-> [Heights -> record]]
           restarts,
+          wf,           \* write faults so far
           top,          \* history: highest height started or learned as decided by this incarnation (-1: none)
           lc,           \* history: highest height this incarnation learned through a completely processed decided
                         \* message that was not late (h >= c.Height on arrival), for an instance it did not hold as
                         \* decided already and that the store did not know as a late record only (-1: none)
           act
-vars == <<height, stored, rs, db, restarts, top, lc, act>>
-view == <<height, stored, rs, db, restarts, top, lc>>
+vars == <<height, stored, rs, db, restarts, wf, top, lc, act>>
+view == <<height, stored, rs, db, restarts, wf, top, lc>>
 
 Heights == 0..MaxH
 Rounds  == 1..2
 Cert(n) == IF n = 3 THEN {1, 2, 3} ELSE {1, 2, 3, 4}
 Max0(S) == IF S = {} THEN 0 ELSE CHOOSE x \in S : \A y \in S : y <= x
+Min1(S) == CHOOSE x \in S : \A y \in S : x <= y
 MaxI(a, b) == IF a >= b THEN a ELSE b
 
 EmptyCC == [r \in Rounds |-> <<>>]
@@ -102,6 +115,12 @@ StopOthers(st, h) == [k \in 1..Len(st) |-> IF st[k].h # h THEN [st[k] EXCEPT !.s
 (* instance.Compact / CompactCopy as far as the commit container goes: rounds below State.Round are dropped *)
 Compact(inst) == [inst EXCEPT !.cc = [r \in Rounds |-> IF r < inst.round THEN <<>> ELSE inst.cc[r]]]
 CompactAt(st, h) == LET k == Idx(st, h) IN IF k = 0 THEN st ELSE [st EXCEPT ![k] = Compact(st[k])]
+(* BaseRunner.compactInstanceIfNeeded after a decided certificate of round r *)
+CompactAtMsg(st, h, r) ==
+    IF Weaken # "compactToMsgRound" THEN CompactAt(st, h)
+    ELSE LET k == Idx(st, h) IN
+         IF k = 0 THEN st
+         ELSE [st EXCEPT ![k].cc = [q \in Rounds |-> IF q < MaxI(st[k].round, r) THEN <<>> ELSE st[k].cc[q]]]
 
 (* Controller.SaveInstance + ibftStorage.saveInstance: the database writes of one save, in order *)
 IsHighest(d, h, hgt) == \/ Weaken = "saveAlwaysHighest" \/ h >= hgt
@@ -112,21 +131,37 @@ Writes(d, h, hgt) ==
          THEN (IF Weaken = "histFirst" THEN <<"hist", "hi">> ELSE <<"hi", "hist">>)   \* SaveHighestAndHistoricalInstance
          ELSE <<"hist">>                                                             \* SaveInstance
     ELSE IF IsHighest(d, h, hgt) THEN <<"hi">> ELSE <<>>                              \* light: SaveHighestInstance / nothing
-(* the first k writes of the save are durable (k >= number of writes: the whole save) *)
-SaveK(d, inst, cr, n, hgt, k) ==
+(* the writes of the save whose positions are in D are durable *)
+SaveSet(d, inst, cr, n, hgt, D) ==
     LET ws  == Writes(d, inst.h, hgt)
         rec == [h |-> inst.h, cr |-> cr, n |-> n,
                 inst |-> [Compact(inst) EXCEPT !.run = FALSE, !.stop = FALSE],
                 late |-> ~IsHighest(d, inst.h, hgt)]
-        done(w) == \E j \in 1..Len(ws) : j <= k /\ ws[j] = w
+        done(w) == \E j \in 1..Len(ws) : j \in D /\ ws[j] = w
     IN [hi |-> IF done("hi") THEN rec ELSE d.hi,
         hist |-> IF done("hist") THEN [d.hist EXCEPT ![inst.h] = rec] ELSE d.hist]
+(* the first k writes of the save are durable (k >= number of writes: the whole save) *)
+SaveK(d, inst, cr, n, hgt, k) == SaveSet(d, inst, cr, n, hgt, 1..k)
 Save(d, inst, cr, n, hgt) == SaveK(d, inst, cr, n, hgt, 2)
+
+(* One call of ibftStorage.saveInstance with w writes whose first write is the a-th write attempt of the enclosing
+   call; F = the attempt numbers that fail.  It returns at the first failing Set: the writes before it are durable,
+   the ones after it are not attempted.  done = positions written, next = number of the next attempt. *)
+NoSave(a) == [done |-> {}, next |-> a, err |-> FALSE]
+SaveRun(w, a, F) ==
+    LET bad == {j \in 1..w : (a + j - 1) \in F} IN
+    IF bad = {} THEN [done |-> 1..w, next |-> a + w, err |-> FALSE]
+    ELSE IF Weaken = "saveContinuesAfterError"
+    THEN [done |-> (1..w) \ bad, next |-> a + w, err |-> TRUE]
+    ELSE [done |-> 1..(Min1(bad) - 1), next |-> a + Min1(bad), err |-> TRUE]
+(* fault plans of one call: at most 2 saves of at most 2 writes *)
+FaultSets == IF wf >= MaxWriteFaults THEN {{}}
+             ELSE {F \in SUBSET (1..(IF FullNode THEN 4 ELSE 2)) : Cardinality(F) <= MaxWriteFaults - wf}
 
 ----------------------------------------------------------------------------
 Init == /\ height = 0 /\ stored = <<>> /\ rs = [has |-> FALSE, run |-> -1]
         /\ db = [hi |-> NoRec, hist |-> [h \in Heights |-> NoRec]]
-        /\ restarts = 0 /\ top = -1 /\ lc = -1
+        /\ restarts = 0 /\ wf = 0 /\ top = -1 /\ lc = -1
         /\ act = [name |-> "init", full |-> FullNode]
 
 (* Controller.StartNewInstance(s): "" when it starts the instance, else the reason of the refusal *)
@@ -152,7 +187,7 @@ StartDuty(s) ==
             /\ height' = s /\ stored' = StartedStore(s)
             /\ rs' = [has |-> TRUE, run |-> s]
             /\ top' = MaxI(top, s)
-    /\ UNCHANGED <<db, restarts, lc>>
+    /\ UNCHANGED <<db, restarts, wf, lc>>
 
 CtlStart(s) ==
     /\ Direct
@@ -162,7 +197,7 @@ CtlStart(s) ==
        ELSE /\ act' = [name |-> "CtlStart", slot |-> s, ok |-> TRUE, why |-> ""]
             /\ height' = s /\ stored' = StartedStore(s)
             /\ top' = MaxI(top, s)
-    /\ UNCHANGED <<rs, db, restarts, lc>>
+    /\ UNCHANGED <<rs, db, restarts, wf, lc>>
 
 (* Validator.Start on database d: NewController + LoadHighestInstance *)
 Boot(d) ==
@@ -174,7 +209,7 @@ Boot(d) ==
        ELSE /\ height' = IF Weaken = "loadNoHeight" THEN 0 ELSE d.hi.h
             /\ stored' = <<Compact(d.hi.inst)>>
     /\ top' = d.hi.h /\ lc' = -1
-    /\ db' = d
+    /\ db' = d /\ UNCHANGED wf
 
 (* the seven deciding messages of round 1 for the running instance (they are refused as "future" above
    c.Height, and a force-stopped instance refuses everything) *)
@@ -186,17 +221,22 @@ LocalNew(h) == LET i == stored[Idx(stored, h)] IN
 (* the runner saves the decision of its own running instance only *)
 LocalSaves(h) == LET i == stored[Idx(stored, h)] IN i.round = 1 /\ ~i.dec /\ rs.has /\ rs.run = h
 
-LocalMsgs(h) ==
+(* F: the write attempts of the runner's save that fail; the error is logged, the decision stands in memory *)
+LocalMsgs(h, F) ==
     /\ LocalGuard(h)
     /\ LET k == Idx(stored, h)  i == stored[k] IN
        IF i.round > 1           \* every message is of a past round
-       THEN /\ act' = [name |-> "LocalMsgs", h |-> h, res |-> "pastround"]
+       THEN /\ F = {}
+            /\ act' = [name |-> "LocalMsgs", h |-> h, res |-> "pastround", fail |-> F]
             /\ UNCHANGED <<stored, db, top>>
-       ELSE /\ stored' = [stored EXCEPT ![k] = LocalNew(h)]
-            /\ db' = IF LocalSaves(h) THEN Save(db, LocalNew(h), 1, 3, height) ELSE db
+       ELSE LET s1 == IF LocalSaves(h) THEN SaveRun(Len(Writes(db, h, height)), 1, F) ELSE NoSave(1) IN
+            /\ F \subseteq 1..(s1.next - 1)        \* every planned failure is hit
+            /\ stored' = [stored EXCEPT ![k] = LocalNew(h)]
+            /\ db' = IF LocalSaves(h) THEN SaveSet(db, LocalNew(h), 1, 3, height, s1.done) ELSE db
             /\ top' = MaxI(top, h)
-            /\ act' = [name |-> "LocalMsgs", h |-> h,
+            /\ act' = [name |-> "LocalMsgs", h |-> h, fail |-> F,
                        res |-> IF i.dec THEN "already" ELSE IF LocalSaves(h) THEN "decided-saved" ELSE "decided-nosave"]
+    /\ wf' = wf + Cardinality(F)
     /\ UNCHANGED <<height, rs, restarts, lc>>
 
 (* ... and the process dies right before the (k+1)-th database write of that call *)
@@ -213,7 +253,7 @@ Commit4(h) ==
     /\ \A j \in 1..Len(stored[k].cc[1]) : stored[k].cc[1][j] # {4}
     /\ stored' = [stored EXCEPT ![k].cc[1] = Append(@, {4})]
     /\ act' = [name |-> "Commit4", h |-> h]
-    /\ UNCHANGED <<height, rs, db, restarts, top, lc>>
+    /\ UNCHANGED <<height, rs, db, restarts, wf, top, lc>>
 
 (* Controller.UponDecided for a valid certificate, then BaseRunner.compactInstanceIfNeeded.
    When the certificate decides the runner's own running instance the runner saves it a second time (same record). *)
@@ -236,16 +276,29 @@ DecidedCalc(h, r, n) ==
         resave |-> ~prev /\ rs.has /\ rs.run = h /\ k1 # 0,  \* baseConsensusMsgProcessing saves it again
         bump |-> h > height /\ Weaken # "noBump"]
 
-Decided(h, r, n) ==
-    LET c == DecidedCalc(h, r, n) IN
-       /\ db' = IF c.sv THEN Save(db, c.st1[c.k1], r, n, height) ELSE db
-       /\ height' = IF c.bump THEN h ELSE height
-       /\ stored' = CompactAt(c.st1, h)
-       /\ top' = MaxI(top, h)
-       \* learned from this message: timely, the node did not hold the instance as decided in memory already
-       \* (then it had learned it before), and the store did not know it as a late record only
-       /\ lc' = IF h >= height /\ ~c.memdec /\ ~(c.disk /\ db.hist[h].late) THEN MaxI(lc, h) ELSE lc
-       /\ act' = [name |-> "Decided", h |-> h, r |-> r, n |-> n, saved |-> c.sv, bumped |-> c.bump]
+(* F: the write attempts of this call that fail.  The controller's save (s1) comes first; when the certificate
+   decides the runner's own running instance the runner's save (s2) follows, whatever the outcome of s1.  Both
+   errors are logged and swallowed, nothing in memory depends on them (Weaken: saveErrReturns, saveErrNoBump). *)
+Decided(h, r, n, F) ==
+    LET c  == DecidedCalc(h, r, n)
+        w1 == Len(Writes(db, h, height))
+        s1 == IF c.sv THEN SaveRun(w1, 1, F) ELSE NoSave(1)
+        early  == Weaken = "saveErrReturns" /\ s1.err       \* UponDecided returned the error
+        nobump == early \/ (Weaken = "saveErrNoBump" /\ s1.err)
+        s2 == IF c.resave /\ ~early THEN SaveRun(w1, s1.next, F) ELSE NoSave(s1.next)
+        st2 == IF Weaken = "saveErrUndecides" /\ s1.err THEN [c.st1 EXCEPT ![c.k1].dec = FALSE] ELSE c.st1
+    IN /\ F \subseteq 1..(s2.next - 1)             \* every planned failure is hit
+       /\ db' = IF c.sv THEN SaveSet(db, c.st1[c.k1], r, n, height, s1.done \cup s2.done) ELSE db
+       /\ height' = IF c.bump /\ ~nobump THEN h ELSE height
+       /\ stored' = CompactAtMsg(st2, h, r)
+       /\ top' = MaxI(top, h)                      \* learned in memory, whatever the store says
+       /\ wf' = wf + Cardinality(F)
+       \* learned from this message AND due to survive a restart: timely, the node did not hold the instance as
+       \* decided in memory already (then it had learned it before), the store did not know it as a late record
+       \* only, and no write of this call failed (a failed write followed by a restart legitimately forgets)
+       /\ lc' = IF h >= height /\ ~c.memdec /\ ~(c.disk /\ db.hist[h].late) /\ F = {} THEN MaxI(lc, h) ELSE lc
+       /\ act' = [name |-> "Decided", h |-> h, r |-> r, n |-> n, saved |-> c.sv, bumped |-> c.bump /\ ~nobump,
+                  fail |-> F]
        /\ UNCHANGED <<rs, restarts>>
 
 DecidedCrash(h, r, n, k) ==
@@ -264,14 +317,14 @@ OnTimeout(h, r) ==
        /\ live => stored[k].round < 2
        /\ stored' = IF live THEN [stored EXCEPT ![k].round = @ + 1, ![k].prop = FALSE] ELSE stored
        /\ act' = [name |-> "OnTimeout", h |-> h, r |-> r, live |-> live]
-       /\ UNCHANGED <<height, rs, db, restarts, top, lc>>
+       /\ UNCHANGED <<height, rs, db, restarts, wf, top, lc>>
 
 (* crash between two calls, then Validator.Start *)
 Restart == Boot(db) /\ act' = [name |-> "Restart"]
 
 Next == \/ \E s \in Heights : StartDuty(s) \/ CtlStart(s)
-        \/ \E h \in Heights : LocalMsgs(h) \/ Commit4(h)
-        \/ \E h \in Heights, r \in CertRounds, n \in {3, 4} : Decided(h, r, n)
+        \/ \E h \in Heights : Commit4(h) \/ \E F \in FaultSets : LocalMsgs(h, F)
+        \/ \E h \in Heights, r \in CertRounds, n \in {3, 4}, F \in FaultSets : Decided(h, r, n, F)
         \/ \E h \in Heights, r \in Rounds : OnTimeout(h, r)
         \/ Restart
         \/ \E h \in Heights, k \in 0..1 : \/ LocalMsgsCrash(h, k)
@@ -284,8 +337,9 @@ ContainerOK == /\ Len(stored) <= Cap
                /\ \A k \in 1..(Len(stored) - 1) : stored[k].h > stored[k + 1].h
                /\ \A k \in 1..Len(stored) : stored[k].h <= height
 
-(* a duty start succeeds only above every height this incarnation has started or learned as decided
-   (after a restart: above the stored highest decided height).  The code's height-0 special case, explicit:
+(* a duty start succeeds only above every height this incarnation has started or learned as decided - in memory,
+   whether or not the write of that decision failed - and above the stored highest decided height it was booted
+   from (top: set to the stored highest height at boot, raised by every start and every decision since).  The code's height-0 special case, explicit:
    c.Height = 0 means "nothing yet" to ShouldProcessDuty, so the gate lets every slot through and the
    controller alone refuses slot 0 - and only while it holds an instance for height 0 in memory. *)
 NoRerun == [][(act'.name = "StartDuty" /\ act'.ok)
@@ -303,6 +357,8 @@ TopIsHeight == top = -1 \/ top = height
 RecMonotone(a, b) == a.h # -1 => \/ b.h > a.h
                                  \/ b.h = a.h /\ b.n >= a.n
 HighestMonotone == [][RecMonotone(db.hi, db'.hi)]_vars
+(* the same for decided certificates alone (attack configs: the counterexample is a pure certificate schedule) *)
+HighestMonotoneCert == [][act'.name = "Decided" => RecMonotone(db.hi, db'.hi)]_vars
 (* historical records (full node): literally "replaced only by more signers" ... *)
 HistShrinks(h)  == db.hist[h].h # -1 /\ (db'.hist[h].h # h \/ db'.hist[h].n < db.hist[h].n)
 HistMonotone    == [][\A h \in Heights : ~HistShrinks(h)]_vars
@@ -319,14 +375,15 @@ StorageShape    == /\ db.hi.h # -1 => db.hi.inst.dec /\ db.hi.n >= 3
                    /\ \A h \in Heights : db.hist[h].h \in {-1, h}
                    /\ ~FullNode => \A h \in Heights : db.hist[h].h = -1
                    \* a crash between the two writes of a full node leaves at most the highest record alone
-                   /\ FullNode /\ db.hi.h # -1 /\ ~MidCrash => db.hist[db.hi.h].h = db.hi.h
+                   \* ... and so does a failed historical write
+                   /\ FullNode /\ db.hi.h # -1 /\ ~MidCrash /\ wf = 0 => db.hist[db.hi.h].h = db.hi.h
                    /\ db.hi.late = FALSE
 (* crash consistency of the two writes: a historical record that was written as a highest instance never gets
    ahead of the highest_instance record *)
 HistBehindHighest == \A h \in Heights : db.hist[h].h = h /\ ~db.hist[h].late => db.hi.h >= h
 
-(* whatever a completely processed, timely decided message taught this incarnation survives its death: the next
-   incarnation starts from a stored highest height that is not below it *)
+(* whatever a completely processed, timely decided message none of whose writes failed taught this incarnation
+   survives its death: the next incarnation starts from a stored highest height that is not below it *)
 RestartCoversLearned == [][IsBoot(act') => lc <= db'.hi.h]_vars
 
 (* after Restart the controller resumes with the stored highest height and refuses duties up to it *)
